@@ -140,6 +140,10 @@ def finish(rng, opt, g, blocks, defs, uses):
         text_nodes = [('text', w) for w in u['text'].split(' ')] if u['form'] == 'full' else label_text_nodes(u['spelling'])
         if d is not None:
             node = ('reflink', text_nodes, u['form'], u['spelling'], d.dest, d.title, u['image'])
+            if rng.random() < 0.15:
+                # glued to a parenthesis that is no valid inline-link tail: the reference must still resolve
+                node = ('glued', node, ('literal_md', rng.choice(('(not a link)', '(/u "t" junk)', '(unclosed'))))
+                u['glued'] = True
         else:
             md = gen.atom_md(('reflink', text_nodes, u['form'], u['spelling'], '', '', u['image']))
             node = ('literal_md', md)
@@ -147,7 +151,7 @@ def finish(rng, opt, g, blocks, defs, uses):
         dup = sum(1 for x in order if norm(x.label) == norm(u['spelling']))
         info.append(dict(form=u['form'], resolved=d is not None, duplicates=dup, image=u['image'],
                          def_path=getattr(d, 'path', None) if d else None, use_path=u['path'],
-                         def_before_use=None, multiline_label='\n' in u['spelling']))
+                         def_before_use=None, multiline_label='\n' in u['spelling'], glued=u.get('glued', False)))
     doc = gen.emit(rng, opt, g, blocks, 'refs')
     for u, i in zip(uses, info):
         d = resolve(order, u['spelling'])
@@ -163,14 +167,20 @@ _atom_md, _atom_html, _atom_plain = gen.atom_md, gen.atom_html, gen.atom_plain
 
 
 def _md(nd):
+    if nd[0] == 'glued':
+        return _md(nd[1]) + _md(nd[2])
     return nd[1] if nd[0] == 'literal_md' else _atom_md(nd)
 
 
 def _html(nd):
+    if nd[0] == 'glued':
+        return _html(nd[1]) + _html(nd[2])
     return gen.esc(nd[1]) if nd[0] == 'literal_md' else _atom_html(nd)
 
 
 def _plain(nd):
+    if nd[0] == 'glued':
+        return _plain(nd[1]) + _plain(nd[2])
     return nd[1] if nd[0] == 'literal_md' else _atom_plain(nd)
 
 
@@ -210,6 +220,8 @@ def check(ctx, doc, case):
             ctx.count('model', 'literal fall-back')
         if i['multiline_label']:
             ctx.count('model', 'label with a line break')
+        if i.get('glued'):
+            ctx.count('model', 'reference glued to a non-link parenthesis')
         if i['resolved'] and i['def_path'] and i['def_path'] != 'doc':
             ctx.count('model', 'resolved through a nested definition')
     ctx.count('held', 'documents')
